@@ -94,6 +94,15 @@ theorem gen_clip_fns {F : Type} (o : ClipOps F) (xl xu xbase sl su x shift scale
     Gen.clampX0 o xl xu x = clampX0 o xl xu x :=
   ⟨rfl, rfl, rfl, rfl, rfl⟩
 
+/-- the tuple `remove_scaling` receives is `(shift, scale, xl, xu)` with `xl`, `xu` copies of the USER's bounds taken before
+    they are scaled (so that the final clip of `remove_scaling` is onto the user's box, the hypothesis of
+    `C01_removeScaling_in_bounds`), `shift = xl`, `scale = xu - xl` — the statements of `solve()` as text -/
+theorem gen_scaling_setup : Gen.scalingSetup =
+    ["shift = xl.copy()", "scale = xu - xl", "scaling_changes = (shift, scale, xl.copy(), xu.copy())",
+     "x0 = apply_scaling(x0, scaling_changes)", "xl = apply_scaling(xl, scaling_changes)", "xu = apply_scaling(xu, scaling_changes)",
+     "apply_scaling: if scaling_changes is None:     return x_raw ; shift, scale = (scaling_changes[0], scaling_changes[1]) ; return (x_raw - shift) / scale"] := by
+  decide +kernel
+
 /-- the bound theorem stated on the translated code: whatever `+`/`*` round to, the point produced by the
     current source of `remove_scaling(as_absolute_coordinates(x))` is inside the user's box or NaN -/
 theorem C01_gen_eval_in_bounds (add mul : Val → Val → Val) (l u : Int) (h : l ≤ u)
